@@ -13,12 +13,18 @@ WHERES = [None, None, "size > 100", "name like '%a%'", "is_file", "size = 987654
 
 def build(rng, root):
     """Returns the shape name; 'big' trees hold sparse files that must not be read (no line_count there)."""
-    shape = rng.choice(["empty", "one", "two", "many", "many", "many", "big"])
+    shape = rng.choice(["empty", "one", "two", "many", "many", "many", "big", "wide"])
     nodes = []
     if shape == "empty":
         pass
     elif shape == "one":
         nodes = [{"path": "a.txt", "kind": "file", "content": b"x\ny\n"}]
+    elif shape == "wide":
+        # thousands of rows: sums beyond 2^32, many equal values, multi-call directory reads
+        for i in range(rng.choice([300, 1200, 2600])):
+            nodes.append({"path": "w%05d.%s" % (i, rng.choice(["a", "b", "txt"])), "kind": "file",
+                          "content": b"l\n" * (i % 5) + b"x" * (i % 11)})
+        nodes.append({"path": "huge", "kind": "file", "size": 2 ** 32 + 12345, "sparse": True})
     elif shape == "two":
         nodes = [{"path": "a.txt", "kind": "file", "content": b"1\n2\n3\n"}, {"path": "bb", "kind": "file", "size": 4}]
     else:
@@ -51,7 +57,7 @@ def run_job(job):
 
         for qi in range(job["queries"]):
             inner = rng.choice(INNERS)
-            if shape == "big" and inner == "line_count":
+            if shape in ("big", "wide") and inner == "line_count":
                 inner = "size"
             where = rng.choice(WHERES)
             if inner == "line_count":
